@@ -19,4 +19,6 @@ def run(ctx):
     cg = mirlib.CallGraph(prog)
     pr.merge_semantics(rep, 'R18.b', prog, cg)
     rep.floor('R18.b', 38)
+    import gen_proto
+    gen_proto.check(rep, ('G18.c',))
     return rep
